@@ -100,30 +100,43 @@ CountCarets(x, i) == IF i <= Len(x) /\ x[i] = 94 THEN CountCarets(x, i + 1) ELSE
 
 (* The expression language of Find: the raw NameString bytes as the parser extracts them:             *)
 (*   ['\' | '^'*]  [0x2E seg seg | 0x2F count seg^count | seg+ | nothing (only after a prefix)]       *)
-(* class "wf": the rules below designate the result.  class "short": a well-formed start followed by  *)
-(* a 1..3 byte stub of a name (or the empty expression), or a dual/multi-name prefix byte (with or      *)
-(* without SegCount) followed by no name at all: designates nothing, the result is not-found.         *)
-(* class "garbage": anything else; Find merely has to return.                                         *)
+(* and, per the quantifier ("embedded dual/multi-name prefix bytes"), a prefix item - 0x2E, or 0x2F    *)
+(* and a count byte - may also sit in front of any later segment; it is stepped over: the designated  *)
+(* node is that of the path without the embedded items.                                               *)
+(* class "wf": the rules below designate the result.  class "short": after the well-formed start come *)
+(* a prefix item followed by no name, and/or a 1..3 byte stub of a name, and then the end (also the   *)
+(* empty expression): designates nothing, the result is not-found.                                    *)
+(* class "garbage": anything else; Find merely has to return.  That includes an embedded 0x2F whose   *)
+(* count byte is itself a name character ('A'..'Z', '_'): the bytes can be read in two ways.          *)
+HdrLen(r, i) == IF i <= Len(r) /\ r[i] = 46 THEN 1
+                ELSE IF i <= Len(r) /\ r[i] = 47 THEN (IF i + 1 <= Len(r) THEN 2 ELSE 1) ELSE 0
+\* split r from position i into [prefix item] segment pairs; tail = what is left when no complete segment follows
+RECURSIVE Tokens(_, _, _, _)
+Tokens(r, i, segs, embBad) ==
+  LET h == HdrLen(r, i)
+      j == i + h IN
+  IF j + 3 <= Len(r) /\ IsSeg(SubSeq(r, j, j + 3))
+  THEN Tokens(r, j + 4, Append(segs, SubSeq(r, j, j + 3)),
+              embBad \/ (segs # <<>> /\ r[i] = 47 /\ (h = 1 \/ IsLead(r[i + 1]))))
+  ELSE [segs |-> segs, embBad |-> embBad \/ (segs # <<>> /\ h = 2 /\ IsLead(r[i + 1])),
+        tailHdr |-> h, tail |-> SubSeq(r, j, Len(r))]
 Parse(x) ==
   LET root   == Len(x) > 0 /\ x[1] = 92
       carets == IF root THEN 0 ELSE CountCarets(x, 1)
       off    == IF root THEN 1 ELSE carets
       rest   == SubSeq(x, off + 1, Len(x))
-      hdr    == IF Len(rest) >= 1 /\ rest[1] = 46 THEN 1
-                ELSE IF Len(rest) >= 1 /\ rest[1] = 47 THEN (IF Len(rest) >= 2 THEN 2 ELSE 1) ELSE 0
-      form   == IF hdr = 1 THEN "dual" ELSE IF hdr = 2 THEN "multi" ELSE "plain"
-      body   == SubSeq(rest, hdr + 1, Len(rest))
-      nfull  == Len(body) \div 4
-      stub   == Len(body) % 4
-      segs   == [k \in 1..nfull |-> SubSeq(body, 4 * k - 3, 4 * k)]
-      segsOK == \A k \in 1..nfull : IsSeg(segs[k])
-      stubOK == stub > 0 /\ IsLead(body[4 * nfull + 1]) /\ \A j \in (4 * nfull + 2)..Len(body) : IsNameChar(body[j])
-      countOK == CASE form = "plain" -> nfull >= 1 \/ (rest = <<>> /\ (root \/ carets > 0))
-                   [] form = "dual"  -> nfull = 2
-                   [] form = "multi" -> nfull >= 1 /\ Len(rest) >= 2 /\ nfull = rest[2]
-      class  == IF stub = 0 /\ segsOK /\ countOK THEN "wf"
-                ELSE IF x = <<>> \/ (segsOK /\ stubOK) \/ (hdr > 0 /\ body = <<>>) THEN "short" ELSE "garbage"
-  IN [class |-> class, root |-> root, carets |-> carets, form |-> form, segs |-> segs]
+      hdr    == HdrLen(rest, 1)
+      form   == IF hdr = 0 THEN "plain" ELSE IF rest[1] = 46 THEN "dual" ELSE "multi"
+      tk     == Tokens(rest, 1, <<>>, FALSE)
+      nseg   == Len(tk.segs)
+      stubOK == Len(tk.tail) \in 1..3 /\ IsLead(tk.tail[1]) /\ \A j \in 2..Len(tk.tail) : IsNameChar(tk.tail[j])
+      countOK == CASE form = "plain" -> nseg >= 1 \/ (rest = <<>> /\ (root \/ carets > 0))
+                   [] form = "dual"  -> nseg = 2
+                   [] form = "multi" -> nseg >= 1 /\ hdr = 2 /\ nseg = rest[2]
+      class  == IF tk.tail = <<>> /\ tk.tailHdr = 0 /\ ~tk.embBad /\ countOK THEN "wf"
+                ELSE IF x = <<>> \/ (~tk.embBad /\ ((tk.tail = <<>> /\ tk.tailHdr > 0) \/ stubOK)) THEN "short"
+                ELSE "garbage"
+  IN [class |-> class, root |-> root, carets |-> carets, form |-> form, segs |-> tk.segs]
 
 \* the children of scope sc named seg.  ACPI forbids two objects of one name in a scope; should a tree hold such
 \* duplicates the rules designate any of them (the statement does not rank them), so every operator below is set-valued
